@@ -298,6 +298,7 @@ def explore_pyapi(case):
         numapi.check_forms(res, B, elems, [], case, "pyapi", targets)
         numapi.check_composed(res, B, elems[:16], [], case, "pyapi", firsts=["inverse", "square"], seconds=["g_right_jacobian"])
         numapi.check_aliasing(res, B, elems[:16], [], case, "pyapi", targets)
+        numapi.check_spellings(res, B, elems[:8], [v for v in rvs[:8]], case, "pyapi")
         numapi.check_history(res, B, elems, [], case, "pyapi", targets, ["to_Matrix", "Ad", "inverse", "log", "product"] + targets)
         for p in elems:
             res.nontrivial.add(hash(p.tobytes()))
@@ -312,6 +313,7 @@ def explore_pyapi(case):
         numapi.check_composed(res, B, [e for e in (B.vec("exp", x) for x in xs[:10]) if np.all(np.isfinite(e))], xs[:12], case, "pyapi", firsts=["neg", "log", "exp", "inverse"],
                               seconds=["left_jacobian", "g_right_jacobian"])
         numapi.check_aliasing(res, B, [], xs[:14], case, "pyapi", targets, tol=1e-9)
+        numapi.check_spellings(res, B, [e for e in (B.vec("exp", x) for x in xs[:6]) if np.all(np.isfinite(e))], xs[:8], case, "pyapi", tol=1e-9)
         numapi.check_history(res, B, [], xs, case, "pyapi", targets, ["exp", "ad", "wedge"] + targets, tol=1e-9)
         for x in xs:
             if maxabs(x) > 0:
